@@ -11,12 +11,23 @@ multi-electron / vacuum-electron / shifted oscillator, three quantum-number mode
 U(1) label, two-component labels), random QN-consistent non-canonical states with real or complex
 data, bond dimensions 1..4 with redundant / rank-deficient / dead-end labels, random sectors.
 
-Signatures are "<operation>:<input class>".  Known genuine defects of the pinned tree found by this
-module (each reproduced by hand, see the final report / DESIGN §7):
-  todense:default-order:dummy-node        TTNS.todense() with order=None raises KeyError on any tree
-                                          containing a virtual node (TTNO.todense skips them)
-  expectation:two-component-qn            TTNS.expectation builds BasisDummy("expectation dummy")
-  ttns_norm:two-component-qn              with qn size 1 -> ValueError for 2-component QNs
+Signatures are "<operation>:<input class>[:detail]".  Genuine defects of the pinned tree found by
+this module, each with its own stable signature (reproduced by hand; see the final report):
+  todense:default-order:dummy-node            TTNS.todense() with order=None puts the virtual (dummy)
+                                              basis sets into the output indices although their size-1
+                                              legs were squeezed -> KeyError on every tree with a
+                                              virtual node (TTNO.todense skips them)
+  add:single-node-tree                        TTNS.add on a one-node tree writes both operands into
+                                              the same slice (root: nothing is direct-summed) and
+                                              returns `other` instead of the sum
+  expectation:two-component-qn:dummy-qn-size  TTNS.expectation / ttns_norm wrap the tree in
+  ttns_norm:two-component-qn:dummy-qn-size    BasisDummy("expectation dummy") with a one-component
+                                              label -> ValueError for two quantum numbers
+                                              (repaired in /repo by commit 0b48864)
+  update_2site:two-component-qn:reshape       dim1 = prod(qnbigl.shape) counts the QN axis
+                                              (repaired in /repo by commit 2f281e0)
+Every other failure of the same operation gets a different signature
+("<op>:<class>", "<op>:<class>:raises:<Exception>", "<op>:<class>:malformed-node-tensors", ...).
 """
 import time
 
